@@ -82,6 +82,7 @@ Definition user_step (w : sworld) (tag : nat) (a : list nat) (text : str) : swor
     let w := w <| sw_follow := match sw_follow w with
                                 | Some FClose => None
                                 | Some FQuit => if (kind =? O_PUSH_MODAL)%nat then Some (FQuitBack (nth0 a 1)) else None
+                                | Some (FQuitBack _) => None     (* a further operation inside the quit dialog's loop ends the tracking *)
                                 | x => x end |> in
     w <| sw_expect :=
            if (kind =? O_SCHEDULE)%nat then [XAddFirst (nth0 a 1) (nth0 a 2)]
